@@ -124,6 +124,10 @@ func (p Precompile) DecreaseAllowance(
 	if err != nil {
 		return nil, err
 	}
+	// CheckApprovalArgs maps the MaxUint256 sentinel ("no limit", meaningful for approve only) to a nil coin
+	if coin == nil {
+		return nil, fmt.Errorf(cmn.ErrInvalidAmount, args[1])
+	}
 
 	for _, typeURL := range typeUrls {
 		switch typeURL {
@@ -166,6 +170,10 @@ func (p Precompile) IncreaseAllowance(
 	grantee, coin, typeUrls, err := authorization.CheckApprovalArgs(args, p.stakingKeeper.BondDenom(ctx))
 	if err != nil {
 		return nil, err
+	}
+	// CheckApprovalArgs maps the MaxUint256 sentinel ("no limit", meaningful for approve only) to a nil coin
+	if coin == nil {
+		return nil, fmt.Errorf(cmn.ErrInvalidAmount, args[1])
 	}
 
 	for _, typeURL := range typeUrls {
